@@ -52,11 +52,15 @@ class Subject:
         self.stream_log = None
         self.dicts = []
 
+        self.recorders = []
+
         def leaf(f):
             log = recorders.Log()
             r = H.make_leaf(f, log)
             if f in ("ext", "real"):
                 self.logs.append(log)
+            if f == "ext":
+                self.recorders.append(r)
             return r
 
         def tbt():
@@ -210,6 +214,11 @@ def x_hist(ctx, case):
               lambda: {"step": step, "error": crashed, **detail()})
     if crashed:
         return True
+    # ---- tag sets handed to a wrapped result are not rewritten afterwards ------------------------
+    for r in subject.recorders:
+        late = r.aliasing_problems()
+        ctx.check(not late, "leaf-observes-reporter-tags-at-outcome",
+                  lambda: {"tag sets handed to the wrapped result that changed afterwards (was, is)": late[:3], **detail()})
     # ---- what wrapped results observed at each outcome -----------------------------------------
     for log in subject.logs:
         seen = [(e.test, e.payload["tags"]) for e in log.events if e.name in recorders.OUTCOMES]
@@ -319,7 +328,7 @@ def random_history(rng):
     h = [["startTestRun"]]
     n = 0
     state = 0
-    tags = ["a", "b", "c"]
+    tags = ["a", "b", "c", ""]      # "" is a (falsy) tag like any other
     for _ in range(rng.randint(2, 25)):
         r = rng.random()
         if r < 0.3:
